@@ -16,8 +16,8 @@ EXPORTS = ("MC_AgonesExport.cfg", "MC_AgonesExportFaults.cfg")
 
 TIERS = {
     # exhaustive cfg, workers, simulate num (per worker), histories replayed, harness threads
-    "quick": dict(mc=["MC_AgonesQuick.cfg"], workers=4, sim="num=250", depth=100, histories=36, threads=36),
-    "thorough": dict(mc=["MC_AgonesFull.cfg", "MC_AgonesFull2.cfg"], workers=6, sim="num=1500", depth=100, histories=400, threads=40),
+    "quick": dict(mc=["MC_AgonesQuick.cfg"], workers=4, sim="num=250", depth=100, histories=48, threads=48),
+    "thorough": dict(mc=["MC_AgonesFull.cfg", "MC_AgonesFull2.cfg"], workers=6, sim="num=1500", depth=100, histories=600, threads=40),
 }
 
 
@@ -124,6 +124,9 @@ def features(steps):
                     feats.add(("C", "relist", "offered-as", a["state"], len(a["ports"]) > 1))
                 feats.add(("relist", shape_class(b), shape_class(a)))
             feats.add(("C", "list-size", min(len(cur), 3)))
+            if seen or not pending or steps.index(s) > 0:
+                # a RE-list: how much it returns, and whether something was being offered before it (an empty re-list must empty the offer)
+                feats.add(("C", "relist-size", min(len(cur), 2), any(offerable(o) for o in seen.values())))
             seen = dict(cur)
             pending = False
             disconnected = False
@@ -136,6 +139,8 @@ def features(steps):
         elif k == "bookmark":
             feats.add(("C", "bookmark"))
             disconnected = False
+        elif k == "listfail":
+            feats.add(("C", "listfail", "first" if not seen else "relist", any(offerable(o) for o in seen.values())))
     return feats
 
 
@@ -223,6 +228,18 @@ def run(prop, tier):
                     pool.append(h)
             sim_generated += sim_states(sim.output)
             sim_notes.append("%s -simulate %s: %d states, %d histories exported, %.1fs" % (c, cfg["sim"], sim_states(sim.output), len(pool) - before, sim.wall))
+        # ... and every history of the small directed configuration (exhaustive, not a random walk): the corner cases are all in the pool
+        dr = vlib.run_tlc("MC_Agones", "MC_AgonesDirected.cfg", wd, workers=4, timeout=1800)
+        if not dr.ok:
+            raise vlib.ToolError("TLC reports %s on MC_AgonesDirected.cfg (specification error):\n%s" % (dr.violated, dr.output[-3000:]))
+        before = len(pool)
+        for h in dr.marked["REPLAY"]:
+            key = json.dumps(h, sort_keys=True)
+            if key not in seen:
+                seen.add(key)
+                pool.append(h)
+        sim_generated += dr.generated
+        sim_notes.append("MC_AgonesDirected.cfg (exhaustive): %s, %d histories exported, %.1fs" % (dr.summary(), len(pool) - before, dr.wall))
         if not pool:
             raise vlib.ToolError("TLC exported no history")
         sel, ncov, nall = select(pool, cfg["histories"], seed)
@@ -313,6 +330,8 @@ def run(prop, tier):
                 "step of every replayed history is judged by TLC (Trace_Agones) against the clauses of spec/AgonesProps.tla; evaluations = judged steps; "
                 "distinct = distinct normalised histories" % (" and ".join(cfg["mc"]), cfg["sim"], seed, len(sel), len(pool), ncov, nall),
         "exhaustive": False,
+        "replayed_histories_with_step": {k: sum(1 for h in sel if any(st["k"] == k for st in h["steps"])) for k in ("list", "gone", "drop", "bookmark", "listfail", "delete")},
+        "replayed_histories_with_empty_relist": sum(1 for h in sel if any(f[:2] == ("C", "relist-size") and f[2] == 0 and f[3] for f in features(h["steps"]))),
         "tlc": ["%s: %s, %.1fs" % (c, r.summary(), r.wall) for c, r in zip(cfg["mc"], mc["r"])] + sim_notes + [
                 "Trace_Agones: %d records judged in %.1fs" % (len(observed), tr.wall)],
         "harness_wall_s": round(harness_wall, 1),
